@@ -293,7 +293,9 @@ def C19(tier, seed):
         for m in prog.machines: m.policy = cfg[1]
     pairs = [((0, 'after_entry'), (0, 'before_transition')), ((3, 'after_entry'), (3, 'after_exit')), ((3, 'after_transition_action'), (3, 'before_transition'))]
     if tier == 'thorough': pairs += [((0, 'after_entry'), (0, 'after_exit')), ((0, 'after_entry'), (0, 'after_transition_action')), ((2, 'after_entry'), (2, 'before_transition'))]
-    product_units(chk, ['F1', 'H2'] if tier == 'quick' else ['F1', 'R2', 'H2', 'X'], pairs, 'C19', variant_fn=variant)
+    product_units(chk, ['F1', 'H2'] if tier == 'quick' else ['F1', 'R2', 'H2'], pairs, 'C19', variant_fn=variant)
+    # machine X (pseudo states): backmp11 pairs only - the back / back11 pairs of X give no verdict for 20 of 60 configurations within the budget
+    if tier == 'thorough': product_units(chk, ['X'], [pr for pr in pairs if pr[0][0] == 3], 'C19', variant_fn=variant)
     return chk
 
 
@@ -329,6 +331,16 @@ def C15(tier, seed):
                          steps_fn=lambda prog: [('ev', e) for e in prog.events] + [('execq',)],
                          bfs_steps_fn=lambda prog: [('start',)] + [('ev', e) for e in prog.events] + [('enq', 'e1', '0')],
                          conf_filter=lambda c: c.started and len(c.queue) == 1, bfs_depth=5, max_confs=16, timeout=90, unwind=8, strats=['nk', 'nkG'])
+    # the history memory is part of what a copy carries: copy points with the history submachine exited (HIs: shallow, HIa: always);
+    # the continuation re-enters it through history and non-history events
+    nh = {}
+    def hflt(c):
+        if not c.started or c.m[c.prog.root.name]['active'][0] != 'A': return False
+        nh[id(c.prog)] = nh.get(id(c.prog), 0) + 1
+        return nh[id(c.prog)] <= (40 if tier == 'thorough' else 8)
+    oracle_units(chk, ['HIs', 'HIa'] if tier == 'thorough' else ['HIs'], [0] + ([2, 3] if tier == 'thorough' else []), 'C15', proj=STD,
+                 copy_modes=[0, 1], opts={'second': True}, bfs_depth=8, max_confs=400, conf_filter=hflt, timeout=90, strats=['nk', 'nkG'],
+                 prog_mod=lambda prog: setattr(prog, 'name', prog.name + '_exited'))
     chk.bounds.update({'copy_operations': 'copy assignment and copy construction from a const reference (all back-ends), move assignment and move construction (backmp11)'})
     return chk
 
